@@ -132,6 +132,7 @@ func runC05(c *Ctx) {
 	retentionScansUnfiltered(c, "R3")
 	treeListingsCoverWholeTree(c, "R5")
 	checkoutRetentionOnlyForce(c, "R3")
+	noFetchIncludeIn(c, "R3", "prune retains what the checkout and recent refs need on every path except those under lfs.fetchexclude", "prune", "pruneCommand")
 	// removals inside pruneDeleteFiles target ObjectPath(oid) of the listed oids
 	for _, ci := range CallsIn(del, "os.Remove", "os.RemoveAll") {
 		okp := false
